@@ -142,6 +142,17 @@ impl Prop for C09 {
                 let dec = x.dec();
                 ctx.sub();
                 let got = catch(|| (dec.as_integer_ratio(), dec.numerator(), dec.denominator()));
+                // the same through a reference and through the trait by name (method resolution)
+                let got_ref = catch(|| {
+                    let r = &dec;
+                    (r.as_integer_ratio(), r.numerator(), r.denominator(), AsIntegerRatio::as_integer_ratio(dec), AsIntegerRatio::numerator(dec), AsIntegerRatio::denominator(dec))
+                });
+                ctx.sub();
+                match (&got, &got_ref) {
+                    (Ok(a), Ok(b)) if (a.0, a.1, a.2) == (b.0, b.1, b.2) && (a.0, a.1, a.2) == (b.3, b.4, b.5) => {}
+                    (Err(_), Err(_)) => {}
+                    _ => ctx.fail("C09/ratio-forms-differ", format!("{x}: by value {got:?}, through a reference / the trait by name {got_ref:?}")),
+                }
                 ctx.note(|| format!("{x}: expected ratio ({n}, {d}), observed {got:?}"));
                 match got {
                     Ok((r, nn, dd)) if r == (n, d) && nn == n && dd == d => {}
